@@ -2,6 +2,8 @@
 F = "crates/lib/src/config.rs"
 CH = "crates/lib/src/changeable.rs"
 SETTERS = ["pathset", "file_watcher", "keyboard_events", "throttle", "filterer", "on_error", "on_action", "on_action_async"]
+# setters whose value another property reads at run time (C02: "throttle ... changes at run time"; C15: an error handler that replaces itself)
+SETTER_PROPS = {"throttle": "C13+C02", "on_error": "C13+C15"}
 UNIT = dict(
     name="cfgwatch",
     prelude=["cfgwatch_env.rs"],
@@ -21,9 +23,9 @@ UNIT = dict(
              ])),
         dict(id="Config::signal_change", kind="fn", src=F, impl="impl Config", name="signal_change"),
     ],
-    structural=[dict(id="C13.structure.setter_%s_signals_the_change_once" % s, file=F, impl="impl Config", count_in_fn=s, pattern="self.signal_change()", expect=1,
+    structural=[dict(id="%s.structure.setter_%s_signals_the_change_once" % (SETTER_PROPS.get(s, "C13"), s), file=F, impl="impl Config", count_in_fn=s, pattern="self.signal_change()", expect=1,
                      why="every Config setter must give the change signal, or workers never re-read the value it stored") for s in SETTERS] + [
-        dict(id="C13.structure.setter_%s_stores_into_its_own_field" % s, file=F, impl="impl Config", count_in_fn=s, pattern="self.%s.replace(" % f, expect=1,
+        dict(id="%s.structure.setter_%s_stores_into_its_own_field" % (SETTER_PROPS.get(s, "C13"), s), file=F, impl="impl Config", count_in_fn=s, pattern="self.%s.replace(" % f, expect=1,
              why="the setter stores the new value in the field the workers read for it") for s, f in [("pathset", "pathset"), ("file_watcher", "file_watcher"),
              ("keyboard_events", "keyboard_events"), ("throttle", "throttle"), ("filterer", "filterer"), ("on_error", "error_handler"), ("on_action", "action_handler"), ("on_action_async", "action_handler")]] + [
         # Changeable: "clone-out reads so handlers run without holding the lock" (RwLock guards are temporaries; Drop is not modelled by Verus, so
